@@ -122,7 +122,7 @@ def run_history(times, types, batches, other_task, passthrough=False, skew=False
     k = 0
     for bi, batch in enumerate(batches):
         samples = [
-            mk(e["task_a"], i, times[i], e["N"] if types[i] else e["W"], 0 if i in zero_set(zeros, types) else BASE**i, "docs", pt_value(passthrough, i), skew_of(skew, i)) for i in (reversed(batch) if rev else batch)
+            mk(e["task_a"], i, times[i], e["N"] if types[i] else e["W"], 0 if i in zero_set(zeros, types) else BASE**i, "ops" if i in zero_set(zeros, types) else "docs", pt_value(passthrough, i), skew_of(skew, i)) for i in (reversed(batch) if rev else batch)
         ]
         if other_task in ("same", "mid"):
             # the SAME batch ends with a sample of another task of the other kind (runner-supplied throughput if task A's is calculated,
@@ -206,8 +206,10 @@ def oracle(times, types, batches, outs, other_task, passthrough, skew=False, rev
         for tup in ta:
             at, rt, st, val, unit = tup
             t = at - START
-            if unit != "docs/s":
-                return ("unit", f"unit {unit!r}")
+            # a failed request is recorded as (0, "ops") by execute_single, a successful bulk in "docs": a value carries the unit of the sample it is reported for
+            units_at_t = {("ops/s" if i in zs else "docs/s") for i in delivered if abs(times[i] - t) < 1e-9}
+            if unit not in (units_at_t or {"docs/s"}):
+                return ("unit", f"unit {unit!r} of the value at t={t}, the samples at that time carry {sorted(units_at_t)}")
             if val is None or val < 0:
                 return ("negative", f"value {val}")
             if not any(abs(times[i] - t) < 1e-9 and abs(rt - times[i]) < 1e-9 for i in delivered):
